@@ -12,6 +12,7 @@
 // __is_scalar (used by etl::is_scalar) as a builtin
 #include <etl/algorithm.hpp>
 #include <etl/bit.hpp>
+#include <etl/cctype.hpp>
 #include <etl/charconv.hpp>
 #include <etl/chrono.hpp>
 #include <etl/cmath.hpp>
@@ -288,6 +289,29 @@ constexpr auto compute_fma(fbits_t<F> const (&tab)[N])
 constexpr auto CT_FMA32 = compute_fma<float>(T_FMA32);
 constexpr auto CT_FMA64 = compute_fma<double>(T_FMA64);
 
+// fmod / remainder over all pairs with a non-zero divisor (x / 0 is not a constant expression)
+template <typename F, size_t N>
+struct FmodCT {
+    fbits_t<F> fmod_[N][N]{}, rem_[N][N]{};
+};
+template <typename F, size_t N>
+constexpr auto compute_fmod(fbits_t<F> const (&tab)[N])
+{
+    FmodCT<F, N> r{};
+    for (size_t i = 0; i < N; ++i) {
+        for (size_t j = 0; j < N; ++j) {
+            F const x = to_f<F>(tab[i]);
+            F const y = to_f<F>(tab[j]);
+            if (y == F(0)) { continue; }
+            r.fmod_[i][j] = to_b(etl::fmod(x, y));
+            r.rem_[i][j]  = to_b(etl::remainder(x, y));
+        }
+    }
+    return r;
+}
+constexpr auto CT_FMOD32 = compute_fmod<float>(T_FMOD32);
+constexpr auto CT_FMOD64 = compute_fmod<double>(T_FMOD64);
+
 // long double (x87 extended): values are built exactly from (sign, 64-bit significand, exponent)
 constexpr long double make_ld(ld_rep r)
 {
@@ -310,10 +334,10 @@ struct LdCT {
     long long llrint_[NLD]{};
     bool signbit_[NLD]{}, isnan_[NLD]{}, isinf_[NLD]{}, dom_[NLD]{}, rdom_[NLD]{};
 };
-constexpr bool ld_round_dom(long double x)
+constexpr bool ld_round_dom(long double)
 {
-    // gcem::round converts floor(|x|) + 1 to long long: not representable for 2^63 - 1/2 (recorded finding)
-    return !(x == 9223372036854775807.5L || x == -9223372036854775807.5L);
+    // every value: gcem::round_int works in T since the fix of round(2^63 - 1/2)
+    return true;
 }
 constexpr bool ld_lrint_dom(long double x)
 {
@@ -435,6 +459,88 @@ constexpr auto compute_istr()
     return r;
 }
 constexpr auto CT_ISTR = compute_istr();
+
+// <cctype>: every function for c = -1 .. 255 (index c + 1)
+struct Ctype {
+    int v[14];
+};
+constexpr auto ctype_all(int c) -> Ctype
+{
+    return {{etl::isalnum(c), etl::isalpha(c), etl::isblank(c), etl::iscntrl(c), etl::isdigit(c), etl::isgraph(c), etl::islower(c),
+        etl::isprint(c), etl::ispunct(c), etl::isspace(c), etl::isupper(c), etl::isxdigit(c), etl::tolower(c), etl::toupper(c)}};
+}
+constexpr auto compute_ctype()
+{
+    Arr<Ctype, 257> r{};
+    for (int c = -1; c < 256; ++c) { r.v[c + 1] = ctype_all(c); }
+    return r;
+}
+constexpr auto CT_CTYPE = compute_ctype();
+
+// string_view: sign of compare, rfind, starts_with, ends_with, find_first_of
+struct SvOps {
+    long long v[5];
+};
+constexpr auto sv_ops(char const* a, char const* b) -> SvOps
+{
+    etl::string_view const x{a};
+    etl::string_view const y{b};
+    auto const pos = [](etl::size_t p) { return p == etl::string_view::npos ? -1LL : static_cast<long long>(p); };
+    return {{sgn(x.compare(y)), pos(x.rfind(y)), x.starts_with(y) ? 1 : 0, x.ends_with(y) ? 1 : 0, pos(x.find_first_of(y))}};
+}
+constexpr auto compute_svops()
+{
+    Arr2<SvOps, NSTR, NSTR> r{};
+    for (size_t i = 0; i < NSTR; ++i) {
+        for (size_t j = 0; j < NSTR; ++j) { r.v[i][j] = sv_ops(T_STR[i], T_STR[j]); }
+    }
+    return r;
+}
+constexpr auto CT_SVOPS = compute_svops();
+
+// chrono: days -> year_month_day -> days
+constexpr auto civil_back(long long z) -> long long
+{
+    namespace ch   = etl::chrono;
+    auto const ymd = ch::year_month_day{ch::sys_days{ch::days{static_cast<int>(z)}}};
+    return ch::sys_days{ymd}.time_since_epoch().count();
+}
+constexpr auto CT_CIVILBACK = ct_map<long long>(T_DAYS, [](long long z) { return civil_back(z); });
+
+// algorithms over the bytes of a row: reverse, find, max_element, is_sorted, rotate
+struct Algo2 {
+    int n;
+    int rev[16];
+    int find97;
+    int mx;
+    int sorted;
+    int rot[16];
+};
+constexpr auto algo2(char const* row) -> Algo2
+{
+    etl::static_vector<int, 16> v;
+    for (char const* p = row; *p != 0; ++p) { v.push_back(static_cast<unsigned char>(*p)); }
+    Algo2 a{};
+    a.n          = static_cast<int>(v.size());
+    auto const f = etl::find(v.begin(), v.end(), 97);
+    a.find97     = f == v.end() ? -1 : static_cast<int>(f - v.begin());
+    a.mx         = v.empty() ? -1 : *etl::max_element(v.begin(), v.end());
+    a.sorted     = etl::is_sorted(v.begin(), v.end()) ? 1 : 0;
+    auto r       = v;
+    etl::reverse(r.begin(), r.end());
+    for (int i = 0; i < a.n; ++i) { a.rev[i] = r[static_cast<size_t>(i)]; }
+    auto o = v;
+    if (o.size() >= 1) { etl::rotate(o.begin(), o.begin() + 1, o.end()); }
+    for (int i = 0; i < a.n; ++i) { a.rot[i] = o[static_cast<size_t>(i)]; }
+    return a;
+}
+constexpr auto compute_algo2()
+{
+    Arr<Algo2, NSTR> r{};
+    for (size_t i = 0; i < NSTR; ++i) { r.v[i] = algo2(T_STR[i]); }
+    return r;
+}
+constexpr auto CT_ALGO2 = compute_algo2();
 
 // ------------------------------------------------------------------ printing
 template <typename U>
@@ -810,6 +916,31 @@ bool vh::run_case(std::string const& op, Toks& in, Out& impl, Out& ref)
         }
         return false;
     }
+    if (op == "fmod" || op == "remainder") {
+        bool const rem      = op == "remainder";
+        std::string const t = in.str();
+        auto const i        = static_cast<size_t>(in.num());
+        auto const j        = static_cast<size_t>(in.num());
+        if (t == "f32" && i < len(T_FMOD32) && j < len(T_FMOD32)) {
+            if (!check_val(in, T_FMOD32[i], impl) || !check_val(in, T_FMOD32[j], impl)) { return true; }
+            float const x = launder(to_f<float>(T_FMOD32[i]));
+            float const y = launder(to_f<float>(T_FMOD32[j]));
+            if (y == 0.0F) { return false; }
+            put_fbits(impl.tok("ok"), rem ? CT_FMOD32.rem_[i][j] : CT_FMOD32.fmod_[i][j], false);
+            put_fbits(ref.tok("ok"), to_b(rem ? etl::remainder(x, y) : etl::fmod(x, y)), false);
+            return true;
+        }
+        if (t == "f64" && i < len(T_FMOD64) && j < len(T_FMOD64)) {
+            if (!check_val(in, T_FMOD64[i], impl) || !check_val(in, T_FMOD64[j], impl)) { return true; }
+            double const x = launder(to_f<double>(T_FMOD64[i]));
+            double const y = launder(to_f<double>(T_FMOD64[j]));
+            if (y == 0.0) { return false; }
+            put_fbits(impl.tok("ok"), rem ? CT_FMOD64.rem_[i][j] : CT_FMOD64.fmod_[i][j], false);
+            put_fbits(ref.tok("ok"), to_b(rem ? etl::remainder(x, y) : etl::fmod(x, y)), false);
+            return true;
+        }
+        return false;
+    }
     // ---- single-path samples
     if (op == "civil") {
         auto const i = static_cast<size_t>(in.num());
@@ -848,6 +979,52 @@ bool vh::run_case(std::string const& op, Toks& in, Out& impl, Out& ref)
         auto const r  = work(launder(static_cast<char const*>(T_STR[i])));
         impl.tok("ok").list(c.v, c.v + c.n).num(c.sum).num(c.cnt);
         ref.tok("ok").list(r.v, r.v + r.n).num(r.sum).num(r.cnt);
+        return true;
+    }
+    if (op == "ctype") {
+        auto const c = in.num();
+        if (c < -1 || c > 255) { return false; }
+        auto const& ct = CT_CTYPE.v[static_cast<size_t>(c + 1)];
+        auto const rt  = ctype_all(launder(static_cast<int>(c)));
+        impl.tok("ok");
+        ref.tok("ok");
+        for (int k = 0; k < 14; ++k) {
+            impl.num(ct.v[k]);
+            ref.num(rt.v[k]);
+        }
+        return true;
+    }
+    if (op == "svops") {
+        auto const i = static_cast<size_t>(in.num());
+        auto const j = static_cast<size_t>(in.num());
+        if (i >= NSTR || j >= NSTR) { return false; }
+        if (!check_row(in, i, impl) || !check_row(in, j, impl)) { return true; }
+        auto const& ct = CT_SVOPS.v[i][j];
+        auto const rt  = sv_ops(launder(static_cast<char const*>(T_STR[i])), launder(static_cast<char const*>(T_STR[j])));
+        impl.tok("ok");
+        ref.tok("ok");
+        for (int k = 0; k < 5; ++k) {
+            impl.num(ct.v[k]);
+            ref.num(rt.v[k]);
+        }
+        return true;
+    }
+    if (op == "civil_back") {
+        auto const i = static_cast<size_t>(in.num());
+        if (i >= len(T_DAYS)) { return false; }
+        if (!check_val(in, T_DAYS[i], impl)) { return true; }
+        impl.tok("ok").num(CT_CIVILBACK.v[i]);
+        ref.tok("ok").num(civil_back(launder(T_DAYS[i])));
+        return true;
+    }
+    if (op == "algo2") {
+        auto const i = static_cast<size_t>(in.num());
+        if (i >= NSTR) { return false; }
+        if (!check_row(in, i, impl)) { return true; }
+        auto const& c = CT_ALGO2.v[i];
+        auto const r  = algo2(launder(static_cast<char const*>(T_STR[i])));
+        impl.tok("ok").list(c.rev, c.rev + c.n).num(c.find97).num(c.mx).num(c.sorted).list(c.rot, c.rot + c.n);
+        ref.tok("ok").list(r.rev, r.rev + r.n).num(r.find97).num(r.mx).num(r.sorted).list(r.rot, r.rot + r.n);
         return true;
     }
     if (op == "istr") {
